@@ -46,7 +46,7 @@ func c11Point(r *vlib.R, types []string) data.Point {
 
 func runC11(tier string, _ []string) int {
 	c := vlib.NewCtx("C11", tier, "exploration")
-	c.SetRule("types and prior values as in C10 (reflect.StructOf + static type); point lists of 0..12 points over declared and undeclared types with keys from a hostile pool ('', 0, -1, +3, 007, 1000, 1001, 1e3, abc, huge, unicode digits…), values (NaN, ±Inf, ±MaxFloat64, 2^63, 2^64, type-range edges), tombstones (0,1,2,3,-1,Max,Min) fed to data.Decode (points, edge points and children), data.MergePoints and data.MergeEdgePoints under a panic monitor, followed in a third of the cases by up to three more merges into the same target (keys around 500 and 1000 included) and, in 4% of the cases, starting from slices of 400-1000 elements; lists made only of undeclared types must leave the target unchanged and return no error. Then lists of 1001-5000 points of one type (deletions of other indexes, repeated deletions, live and deleted mixed); then types no one has used before decoded into by eight goroutines at once, each of which must get what a caller on its own gets. distinct = (entry point, outcome, shapes of the fields hit, key class)")
+	c.SetRule("types and prior values as in C10 (reflect.StructOf + static type); point lists of 0..12 points over declared and undeclared types with keys from a hostile pool ('', 0, -1, +3, 007, 1000, 1001, 1e3, abc, huge, unicode digits…), values (NaN, ±Inf, ±MaxFloat64, 2^63, 2^64, type-range edges), tombstones (0,1,2,3,-1,Max,Min) fed to data.Decode (points, edge points and children), data.MergePoints and data.MergeEdgePoints under a panic monitor, followed in a third of the cases by up to three more merges into the same target (keys around 500 and 1000 included) and, in 4% of the cases, starting from slices of 400-1000 elements; lists made only of undeclared types must leave the target unchanged and return no error. Then lists of 1001-5000 points of one type (deletions of other indexes, repeated deletions, live and deleted mixed); then types no one has used before decoded into by sixteen goroutines at once, each of which must get what a caller on its own gets. distinct = (entry point, outcome, shapes of the fields hit, key class)")
 	c.Assume("only supported (exported, tagged) field kinds are generated; a Go panic is the crash signal")
 	n := c.N(50000, 3000000)
 	static := c10StaticGen()
@@ -283,7 +283,7 @@ func runC11(tier string, _ []string) int {
 	}
 	// ---- the other caller: a type that no one has decoded into before is decoded into by eight goroutines at
 	// once (same input, own destinations); every one of them gets what a caller on its own gets afterwards
-	nConc := c.N(150, 1500)
+	nConc := c.N(800, 4000)
 	for i := 0; i < nConc && !vlib.Aborted(); i++ {
 		r := vlib.NewR(c.Seed, "c11conc", i)
 		g := genConfigType(r, false, 0)
@@ -303,7 +303,7 @@ func runC11(tier string, _ []string) int {
 		}
 		ne.Points = append(ne.Points, data.Point{Type: fmt.Sprintf("uniq%d", i), Value: 7})
 		in := data.NodeEdgeChildren{NodeEdge: ne}
-		const callers = 8
+		const callers = 16
 		outs := make([]reflect.Value, callers)
 		errs := make([]error, callers)
 		panics := make([]any, callers)
@@ -340,7 +340,7 @@ func runC11(tier string, _ []string) int {
 				break
 			}
 		}
-		c.Count("types_first_used_by_eight_callers_at_once", 1)
+		c.Count("types_first_used_by_sixteen_callers_at_once", 1)
 	}
 	c.Require("returned_error", 10)
 	c.Require("returned_ok", 10)
